@@ -132,7 +132,7 @@ Definition file_source (incl : bool) : source world fsrc :=
 
 (* ---------- HTTPPolicySource ---------- *)
 Record hsrc := {
-  h_etag : option tag;             (* _etag: ETag header of the last non-304 answer that had one *)
+  h_etag : option tag;             (* _etag: ETag header of the last answer whose body was parsed *)
   h_cache : option doc             (* _policy_cache: last successfully parsed document *)
 }.
 
@@ -149,11 +149,12 @@ Definition http_source (etags : bool) : source world hsrc :=
                   (* If-None-Match matched: 304, the cached document (or {} when there is none) *)
                   (st, SOk match h_cache st with Some d => d | None => 0 end)
                 else
-                  (* 200: the ETag header is remembered BEFORE the body is parsed *)
-                  let e' := if etags then Some (THttp b) else h_etag st in
+                  (* 200: the ETag header is remembered together with a successfully parsed body
+                     only (commit e788bd5); an unparsable body leaves the source as it was *)
                   match parse b with
-                  | SOk d => ({| h_etag := e'; h_cache := Some d |}, SOk d)
-                  | SErr => ({| h_etag := e'; h_cache := h_cache st |}, SErr)
+                  | SOk d => ({| h_etag := if etags then Some (THttp b) else h_etag st;
+                                 h_cache := Some d |}, SOk d)
+                  | SErr => (st, SErr)
                   end
             end |}.
 
